@@ -486,6 +486,31 @@ theorem merge_keeps_binding [CommRing S] (w : World E S) (hOk : w.heap.Ok) (i j 
         eval (atEnv (g w.env)) w.heap i :=
   (eval_step_merge_eq_nest (R := E → S) (S := S) (atEnvHom (g w.env)) hOk i j off hok).2
 
+/-- every world operation keeps the pool invariant -/
+theorem wexec_ok [Zero S] [One S] (ops : List (WOp E S)) :
+    ∀ (w : World E S), w.heap.Ok → (wexec w ops).heap.Ok := by
+  induction ops with
+  | nil => intro w hw; exact hw
+  | cons op r ih =>
+    intro w hw
+    apply ih (wstep w op)
+    cases op with
+    | struct o => exact step_ok hw o
+    | copy k => exact step_ok hw _
+    | set g => exact hw
+
+/-- After ANY history of structural operations, copies and re-assignments of parameter values,
+starting from the empty pool: what every pool entry reports is the ordered product of its leaves'
+matrices under the *current* environment, on the ranges iteration reports (which fit). -/
+theorem observe_after_any_history [CommRing S] (e₀ : E) (ops : List (WOp E S)) (i : ℕ) :
+    let w := wexec (⟨Heap.empty, e₀⟩ : World E S) ops
+    observe w i = prodFlat (w.heap.msize i) (Flat.mapC (atEnv w.env) (flatten (snapshot w.heap i))) ∧
+      Flat.Fits (flatten (snapshot w.heap i)) (w.heap.msize i) := by
+  intro w
+  have hOk : w.heap.Ok := wexec_ok ops _ Heap.empty_ok
+  have hw : (snapshotItems w.heap i).WF (w.heap.msize i) := resolveIt_WF hOk _ i
+  exact ⟨(observe_eq_prod_flatten w hOk i).2, (prodItems_eq_prod_flatten _ _ hw).2⟩
+
 end world
 
 /-! ### non-vacuity of the heap theorems: a history with nesting by reference, growth after
@@ -514,5 +539,25 @@ example : ∀ op ∈ exHist, op.Unitary := by
 
 example : (exec (Heap.empty : Heap GQ) exHist).size = 3 ∧
     ((exec (Heap.empty : Heap GQ) exHist).items 0).length = 5 := by decide +kernel
+
+/-- the hypotheses of the refinement theorems (`hOk`, admissibility of a nest / merge / leaf /
+barrier, `i < size` for a copy) hold together on a reachable pool -/
+example : let h := exec (Heap.empty : Heap GQ) (exHist.take 3)
+    h.Ok ∧ (Op.nest (R := GQ) 0 1 1).ok h = true ∧ (Op.merge (R := GQ) 0 1 0).ok h = true ∧
+      (Op.leaf 1 1 1 phaseI).ok h = true ∧ (Op.barrier (R := GQ) 0).ok h = true ∧ 0 < h.size := by
+  refine ⟨exec_ok _, ?_⟩
+  decide +kernel
+
+/-- … and the ones of the world theorems (`copy_frozen`, `merge_keeps_binding`) on a world with a
+leaf whose matrix depends on the environment -/
+def exWorld : World Bool GQ :=
+  wexec ⟨Heap.empty, false⟩
+    [.struct (.new 2 1), .struct (.new 1 0),
+     .struct (.leaf 1 0 1 (fun _ _ e => if e then GQ.I else 1)), .struct (.nest 0 1 1)]
+
+example : exWorld.heap.Ok ∧ 0 < exWorld.heap.size ∧
+    (Op.merge (R := Bool → GQ) 0 1 0).ok exWorld.heap = true := by
+  refine ⟨wexec_ok _ _ Heap.empty_ok, ?_⟩
+  decide +kernel
 
 end PM.C01
